@@ -51,3 +51,31 @@ def feature_stats(ctx, progs):
         for f in p["features"]:
             ctx.count("feature_" + f)
         ctx.count("modules_%d" % len(p["mods"]))
+
+
+def shared_corpus():
+    """every hand-written program of the checks that lives at module level, as program dicts: programs written to reach a
+    corner for one property are also compiled by the checks that quantify over all programs (C01, C03, C04, C06)"""
+    from . import cyc, c01, c02, c05, c09, c13
+    out = []
+    seen = set()
+
+    def add(mods, main):
+        key = json.dumps(mods, sort_keys=True)
+        if key not in seen:
+            seen.add(key)
+            out.append({"mods": mods, "main": main, "features": ["shared"], "ast": None})
+    for t in list(cyc.CORPUS) + list(c01.ARITY) + c01.concat_nests()[::7]:
+        add({"file:///w/main.oal": t}, "file:///w/main.oal")
+    for m in c01.MODULE_TWINS:
+        add(m, "file:///w/main.oal")
+    for t, _ in c02.CONCAT:
+        add({"file:///w/main.oal": t}, "file:///w/main.oal")
+    for _, a, b in list(c05.PAIRS) + list(c05.SYM_PAIRS):
+        add({"file:///w/main.oal": a}, "file:///w/main.oal")
+        add({"file:///w/main.oal": b}, "file:///w/main.oal")
+    for m, _ in c09.TEMPLATES:
+        add(m, "file:///w/main.oal")
+    for _, t in c13.REJECTED:
+        add({"file:///w/main.oal": t}, "file:///w/main.oal")
+    return out
